@@ -37,6 +37,29 @@ func encChecksPoint(g *groups.G, v kyber.Point) []string {
 	if !bytes.Equal(b, b2) {
 		f = append(f, "second MarshalBinary differs (encoding changed the value)")
 	}
+	// the returned bytes belong to the caller: writing into them leaves the value alone, and updating the value in
+	// place leaves them alone (done on a clone, so that the value under test keeps its object history)
+	if len(b) > 0 {
+		c := v.Clone()
+		cb, _ := c.MarshalBinary()
+		keep := append([]byte{}, cb...)
+		for i := range cb {
+			cb[i] ^= 0xa5
+		}
+		if !c.Equal(v) {
+			f = append(f, "writing into the slice returned by MarshalBinary changes the point")
+		}
+		if again, _ := c.MarshalBinary(); !bytes.Equal(again, keep) {
+			f = append(f, "writing into the slice returned by MarshalBinary changes the next encoding")
+		}
+		cb2, _ := c.MarshalBinary()
+		keep2 := append([]byte{}, cb2...)
+		c.Add(c, c)
+		c.Neg(c)
+		if !bytes.Equal(cb2, keep2) {
+			f = append(f, "updating the point in place changes an encoding handed out earlier")
+		}
+	}
 	w := G.Point()
 	if err := w.UnmarshalBinary(b); err != nil {
 		return append(f, "UnmarshalBinary of own encoding fails: "+err.Error())
@@ -105,6 +128,27 @@ func encChecksScalar(g *groups.G, v kyber.Scalar) []string {
 	}
 	if len(b) != v.MarshalSize() || len(b) != G.ScalarLen() {
 		f = append(f, fmt.Sprintf("length %d, MarshalSize %d, ScalarLen %d", len(b), v.MarshalSize(), G.ScalarLen()))
+	}
+	if len(b) > 0 {
+		c := v.Clone()
+		cb, _ := c.MarshalBinary()
+		keep := append([]byte{}, cb...)
+		for i := range cb {
+			cb[i] ^= 0xa5
+		}
+		if !c.Equal(v) {
+			f = append(f, "writing into the slice returned by MarshalBinary changes the scalar")
+		}
+		if again, _ := c.MarshalBinary(); !bytes.Equal(again, keep) {
+			f = append(f, "writing into the slice returned by MarshalBinary changes the next encoding")
+		}
+		cb2, _ := c.MarshalBinary()
+		keep2 := append([]byte{}, cb2...)
+		c.Add(c, G.Scalar().One())
+		c.Mul(c, c)
+		if !bytes.Equal(cb2, keep2) {
+			f = append(f, "updating the scalar in place changes an encoding handed out earlier")
+		}
 	}
 	w := G.Scalar()
 	if err := w.UnmarshalBinary(b); err != nil {
